@@ -4,11 +4,15 @@
 //!
 //! Line:  `C <object> | <ops of thread 0> | <ops of thread 1> | ... | S <schedule>`
 //!   object  ::= ctr NF|NU | gauge NF|NI | hist <n> <f64 bits>* | vec <nlabels>
+//!             | reg <collectors>      (concreg.rs: its own event vocabulary, coq/Model/RegConc.v)
 //!   ops     ::= op (, op)*        (see `parse_op`)
 //!   schedule::= (<tid>[s])*       `s` = make the step fail spuriously if it is a weak compare-exchange
 //! Output: one line, a Gallina `list event` (coq/Model/Conc.v).
 #[cfg(not(prometheus_verif))]
 pub fn run_line(_line: &str) -> String {
+    if _line.split_whitespace().nth(1) == Some("reg") {
+        return "[RgNoHooks]".to_string();
+    }
     "[ENoHooks]".to_string()
 }
 
@@ -160,6 +164,7 @@ mod imp {
         GaugeI(IntGauge),
         Hist(Histogram),
         Vec(IntCounterVec, usize),
+        Reg(crate::concreg::RegObj),
     }
     #[derive(Clone)]
     enum Op {
@@ -186,6 +191,9 @@ mod imp {
         Remove(Vec<String>),
         VReset,
         VCollect,
+        Register(usize),
+        Unregister(usize),
+        Gather,
     }
     fn parse_op(s: &str) -> Op {
         let mut t = Tok::new(s);
@@ -216,6 +224,9 @@ mod imp {
             "remove" => Op::Remove(t.strings()),
             "vreset" => Op::VReset,
             "vcollect" => Op::VCollect,
+            "register" => Op::Register(t.usize()),
+            "unregister" => Op::Unregister(t.usize()),
+            "gather" => Op::Gather,
             w => panic!("bad conc op {}", w),
         }
     }
@@ -236,7 +247,17 @@ mod imp {
     }
 
     /// runs one call; `call`/`ret` markers are scheduled steps of their own
-    fn run_op(h: &WorkerHook, obj: &Obj, op: &Op) {
+    /// the local (unsync) handles of one worker thread: they live as long as the thread, so that a second batch goes
+    /// through the SAME local handle as the first (a handle made afresh for every batch would hide state left behind
+    /// by an earlier flush)
+    #[derive(Default)]
+    struct Locals {
+        hist: Option<prometheus::local::LocalHistogram>,
+        ctrf: Option<prometheus::local::LocalCounter>,
+        ctru: Option<prometheus::local::LocalIntCounter>,
+    }
+
+    fn run_op(h: &WorkerHook, obj: &Obj, op: &Op, locals: &mut Locals) {
         let me = h.me;
         match (obj, op) {
             (Obj::CtrF(c), Op::Inc) => {
@@ -300,7 +321,7 @@ mod imp {
                 h.marker(format!("ERet {} RUnit", me));
             }
             (Obj::CtrF(c), Op::LFlushF(vs)) => {
-                let l = c.local();
+                let l = locals.ctrf.get_or_insert_with(|| c.local());
                 for v in vs {
                     l.inc_by(*v);
                 }
@@ -312,7 +333,7 @@ mod imp {
                 l.flush();
             }
             (Obj::CtrU(c), Op::LFlushU(vs)) => {
-                let l = c.local();
+                let l = locals.ctru.get_or_insert_with(|| c.local());
                 for v in vs {
                     l.inc_by(*v);
                 }
@@ -368,7 +389,7 @@ mod imp {
                 h.marker(format!("ERet {} RUnit", me));
             }
             (Obj::Hist(hh), Op::Batch(vs)) => {
-                let l = hh.local();
+                let l = locals.hist.get_or_insert_with(|| hh.local());
                 for v in vs {
                     l.observe(*v);
                 }
@@ -376,8 +397,8 @@ mod imp {
                 h.marker(format!("ECall {} (CBatch {})", me, cn_list(&bits)));
                 l.flush();
                 h.marker(format!("ERet {} RUnit", me));
-                // dropping the (now empty) local histogram performs no shared step
-                drop(l);
+                // the (now empty) local histogram is kept for the thread's next batch; dropping it at the end of the
+                // thread performs no shared step
             }
             (Obj::Hist(hh), Op::Collect) => {
                 h.marker(format!("ECall {} CCollect", me));
@@ -436,6 +457,30 @@ mod imp {
                 }
                 h.marker(format!("ERet {} (RColl [{}])", me, items.join(";")));
             }
+            (Obj::Reg(r), Op::Register(i)) if *i < r.cols.len() => {
+                let wh = WorkerHook { s: h.s.clone(), me };
+                crate::concreg::set_probe(me, Arc::new(move |l: String| wh.marker(l)));
+                h.marker(format!("RgCall {} (RRegister {})", me, i));
+                let res = crate::concreg::register(r, *i);
+                h.marker(format!("RgRet {} {}", me, res));
+            }
+            (Obj::Reg(r), Op::Unregister(i)) if *i < r.cols.len() => {
+                let wh = WorkerHook { s: h.s.clone(), me };
+                crate::concreg::set_probe(me, Arc::new(move |l: String| wh.marker(l)));
+                h.marker(format!("RgCall {} (RUnregister {})", me, i));
+                let res = crate::concreg::unregister(r, *i);
+                h.marker(format!("RgRet {} {}", me, res));
+            }
+            (Obj::Reg(r), Op::Gather) => {
+                let wh = WorkerHook { s: h.s.clone(), me };
+                crate::concreg::set_probe(me, Arc::new(move |l: String| wh.marker(l)));
+                h.marker(format!("RgCall {} RGather", me));
+                let res = crate::concreg::gather(r);
+                h.marker(format!("RgRet {} {}", me, res));
+            }
+            (Obj::Reg(_), _) => {
+                h.marker(format!("RgOther {}", me));
+            }
             _ => {
                 h.marker(format!("ECall {} CBadOp", me));
                 h.marker(format!("ERet {} RErr", me));
@@ -467,8 +512,15 @@ mod imp {
                 let ns: Vec<&str> = names.iter().map(|s| s.as_str()).collect();
                 Obj::Vec(IntCounterVec::new(Opts::new("v", "h"), &ns).unwrap(), n)
             }
+            "reg" => Obj::Reg(crate::concreg::make(&mut t)),
             w => panic!("bad object {}", w),
         };
+        let is_reg = matches!(obj, Obj::Reg(_));
+        if let Obj::Reg(r) = &obj {
+            if !r.instrumented {
+                return "[RgNoHooks]".to_string();
+            }
+        }
         let mut progs: Vec<Vec<Op>> = vec![];
         let mut schedule: Vec<(usize, bool)> = vec![];
         for p in &parts[1..] {
@@ -497,6 +549,9 @@ mod imp {
             cv: Condvar::new(),
         });
         let mut hs = vec![];
+        // one handle shared by reference (not one library-level clone per thread: a clone would raise the handle's
+        // internal reference count, and code paths that depend on it would never be exercised)
+        let obj = Arc::new(obj);
         for (i, prog) in progs.into_iter().enumerate() {
             let obj = obj.clone();
             let s2 = s.clone();
@@ -504,8 +559,9 @@ mod imp {
                 let hook = Arc::new(WorkerHook { s: s2.clone(), me: i });
                 verif_sync::install(hook.clone());
                 let r = catch_unwind(AssertUnwindSafe(|| {
+                    let mut locals = Locals::default();
                     for op in &prog {
-                        run_op(&hook, &obj, op);
+                        run_op(&hook, &obj, op, &mut locals);
                     }
                 }));
                 verif_sync::uninstall();
@@ -594,6 +650,9 @@ mod imp {
         let mut evs: Vec<String> = g.log.clone();
         if let Some(v) = verdict {
             evs.push(v.to_string());
+        }
+        if is_reg {
+            evs = evs.iter().map(|e| crate::concreg::rename(e)).collect();
         }
         format!("[{}]", evs.join("; "))
     }
